@@ -10,6 +10,8 @@
 #include <boost/preprocessor/repetition/enum_params.hpp>
 #include <boost/preprocessor/repetition/enum_binary_params.hpp>
 #include <boost/serialization/set.hpp>
+#include <boost/serialization/vector.hpp>
+#include <boost/serialization/split_member.hpp>
 
 #include "Misc.h"
 
@@ -31,6 +33,10 @@ template<typename TermType> class TermList {
     typedef typename TermType::IsNegligible IsNegligible;
 
     std::set<TermType, Compare> data;
+    /** Terms received through serialization that the set refuses to hold, because Compare (which works with a
+     *  tolerance and is therefore not a strict weak ordering) regards them as equivalent to an already inserted term.
+     *  The sender did hold them as separate terms, so the receiver must keep them too. */
+    std::vector<TermType> extra;
     IsNegligible is_negligible;
 
 public:
@@ -59,10 +65,10 @@ public:
     }
 
     /** Number of terms in the container */
-    std::size_t size() const { return data.size(); }
+    std::size_t size() const { return data.size() + extra.size(); }
 
     /** Remove all terms from the container */
-    void clear() { data.clear(); }
+    void clear() { data.clear(); extra.clear(); }
 
     // Some pre-C++11 ugliness ...
 #define MAKE_CALL_OPERATOR(N)                                               \
@@ -73,6 +79,8 @@ public:
             it != data.end(); ++it) {                                       \
             res += (*it)(BOOST_PP_ENUM_PARAMS(N, arg));                     \
         }                                                                   \
+        for(std::size_t i = 0; i < extra.size(); ++i)                       \
+            res += extra[i](BOOST_PP_ENUM_PARAMS(N, arg));                  \
         return res;                                                         \
     }
 
@@ -87,9 +95,23 @@ public:
 
     /** Boost.Serialization interface */
     friend class boost::serialization::access;
-    template<class Archive> void serialize(Archive & ar, const unsigned int version) {
-        ar & data; ar & is_negligible;
+    template<class Archive> void save(Archive & ar, const unsigned int version) const {
+        std::vector<TermType> all(data.begin(), data.end());
+        all.insert(all.end(), extra.begin(), extra.end());
+        const std::vector<TermType> & all_const = all;
+        ar << all_const; ar << is_negligible;
     }
+    /** Rebuilds the list term by term. Loading the std::set directly would silently drop every term that Compare
+     *  regards as equivalent to one loaded before, so that the receiving MPI rank evaluated another function
+     *  than the rank that computed the terms. */
+    template<class Archive> void load(Archive & ar, const unsigned int version) {
+        std::vector<TermType> all;
+        ar >> all; ar >> is_negligible;
+        data.clear(); extra.clear();
+        for(std::size_t i = 0; i < all.size(); ++i)
+            if(!data.insert(all[i]).second) extra.push_back(all[i]);
+    }
+    BOOST_SERIALIZATION_SPLIT_MEMBER()
 
     /** Check that all terms in the container are properly ordered and are not negligible */
     bool check_terms() {
